@@ -32,6 +32,7 @@ class State(object):
         self.ret = None
         self.done = False
         self.flow = None      # None | "continue" | "break"
+        self.ptr = {}      # walking local pointer name -> (base array name, concrete flat offset)
 
     def copy(self):
         s = State()
@@ -42,6 +43,7 @@ class State(object):
         s.ret = self.ret
         s.done = self.done
         s.flow = self.flow
+        s.ptr = dict(self.ptr)
         return s
 
 
@@ -77,6 +79,7 @@ class CSym(object):
         # local pointers bound once to a row / an element address of another array:  g = gv[k]; ... g[i]  reads as gv[k][i]
         self.pdefs = {n: v for n, v in cfront.scalar_defs(func).items()
                       if n in {x.name for x in func.locals.values() if x.ty and "*" in x.ty}}
+        self.walkers = {x.name for x in func.locals.values() if x.ty and "*" in x.ty and x.name not in self.pdefs}
 
     # ------------------------------------------------------------------ entry points
     def run(self, stmt=None, state=None):
@@ -107,9 +110,36 @@ class CSym(object):
                     if s.init is not None:
                         if s.init.k != "init":
                             raise Unsupported("array initialiser at %s:%s" % (self.f.file, s.line))
-                        flat = self._flat_init(s.init)
-                        for i, e in enumerate(flat):
-                            st.arr[name][self._cell(name, i)] = self.ev(e, st)
+                        # C semantics: cells without an initialiser are zero ( double R[3][3] = {{0.}}; )
+                        dims = self.dims[name]
+                        ncell = 1
+                        for d in dims:
+                            ncell *= d
+                        for i in range(ncell):
+                            st.arr[name][self._cell(name, i)] = vn.const(0)
+
+                        def fill(init, level, base):
+                            stride = 1
+                            for d in dims[level + 1:]:
+                                stride *= d
+                            pos = base
+                            for x in init.a:
+                                if x.k == "init" and level + 1 < len(dims):
+                                    pos = (pos - base + stride - 1) // stride * stride + base if (pos - base) % stride else pos
+                                    fill(x, level + 1, pos)
+                                    pos += stride
+                                elif x.k == "init":
+                                    fill(x, level, pos)
+                                    pos += 1
+                                else:
+                                    if pos < ncell:
+                                        st.arr[name][self._cell(name, pos)] = self.ev(x, st)
+                                    pos += 1
+                        fill(s.init, 0, 0)
+                elif s.init is not None and name in self.pdefs:
+                    pass      # a row / element pointer: its uses are read through the array it points into
+                elif s.init is not None and name in self.walkers:
+                    st.ptr[name] = self.ptr_value(s.init, st)
                 elif s.init is not None:
                     st.v[name] = self.ev(s.init, st)
                 else:
@@ -290,12 +320,20 @@ class CSym(object):
             inner = e.a[0]
             while inner.k == "cast":
                 inner = inner.a[0]
+            if inner.k == "var" and inner.name in st.ptr:
+                return self.flat_cell(*st.ptr[inner.name])
             if inner.k == "var" and inner.name in self.params:
                 return ("param", inner.name, (0,))
             raise Unsupported("pointer dereference %s" % estr(e))
         if self.pdefs and any(x.k == "var" and x.name in self.pdefs for x in cfront.ewalk(e)):
             e = cfront.esubst(e, self.pdefs)
         v, subs = cfront.subscripts(e)
+        if v is not None and v.name in st.ptr and len(subs) == 1:
+            base, off = st.ptr[v.name]
+            kx = self.index_key(subs[0], st)
+            if not isinstance(kx, int):
+                raise Unsupported("symbolic index through the moving pointer %s" % v.name)
+            return self.flat_cell(base, off + kx)
         if v is None:
             raise Unsupported("lvalue %s" % estr(e))
         idx = tuple(self.index_key(x, st) for x in subs)
@@ -306,6 +344,41 @@ class CSym(object):
         if v.name in self.params:
             return ("param", v.name, idx)
         raise Unsupported("subscript of %s" % v.name)
+
+    def flat_cell(self, base, flat):
+        if base in self.dims:
+            return ("local", base, self._cell(base, flat))
+        inner = self.pdims.get(base) or []
+        idx = []
+        for d in reversed(inner):
+            idx.append(flat % d)
+            flat //= d
+        idx.append(flat)
+        return ("param", base, tuple(reversed(idx)))
+
+    def ptr_value(self, e, st):
+        """pointer-valued expression -> (base array name, concrete flat offset)"""
+        while e.k == "cast":
+            e = e.a[0]
+        if e.k == "var":
+            if e.name in st.ptr:
+                return st.ptr[e.name]
+            if e.name in self.params or e.name in self.dims:
+                return (e.name, 0)
+        if e.k == "bin" and e.op in ("+", "-"):
+            b, o = self.ptr_value(e.a[0], st)
+            d = self.ev(e.a[1], st)
+            if d.is_const():
+                return (b, o + int(d.const_value()) * (1 if e.op == "+" else -1))
+        if e.k == "un" and e.op == "&" and e.a[0].k == "idx":
+            lv = self.lvalue(e.a[0], st)
+            if lv[0] in ("param", "local") and all(isinstance(i, int) for i in lv[2]):
+                dims = self.dims.get(lv[1]) or ([None] + list(self.pdims.get(lv[1]) or []))
+                flat = 0
+                for i, d in zip(lv[2], dims):
+                    flat = flat * (d if d is not None else 1) + i if d is not None else i
+                return (lv[1], flat)
+        raise Unsupported("pointer expression %s" % estr(e))
 
     def load(self, lv, st, e):
         if lv[0] == "scalar":
@@ -400,6 +473,25 @@ class CSym(object):
             raise Unsupported("unary %s" % e.op)
         if k == "idx":
             return self.load(self.lvalue(e, st), st, e)
+        if k == "asg" and e.a[0].k == "var" and e.a[0].name in self.pdefs:
+            return vn.const(0)
+        if k in ("asg", "incdec") and e.a[0].k == "var" and e.a[0].name in self.walkers:
+            name = e.a[0].name
+            if k == "asg" and e.op == "=":
+                st.ptr[name] = self.ptr_value(e.a[1], st)
+            else:
+                if name not in st.ptr:
+                    raise Unsupported("pointer %s moved before it was bound" % name)
+                if k == "incdec":
+                    d = 1 if e.op == "++" else -1
+                else:
+                    dv = self.ev(e.a[1], st)
+                    if not dv.is_const() or e.op not in ("+=", "-="):
+                        raise Unsupported("pointer %s moved by a symbolic amount" % name)
+                    d = int(dv.const_value()) * (1 if e.op == "+=" else -1)
+                b, o = st.ptr[name]
+                st.ptr[name] = (b, o + d)
+            return vn.const(0)
         if k == "asg":
             lv = self.lvalue(e.a[0], st)
             rhs = self.ev(e.a[1], st)
